@@ -127,6 +127,8 @@ def _stability(ctx, label, args, kwargs, result, memo):
     view of internal scratch storage is silently overwritten by the next call).  Results that share memory with an
     argument are exempt: the caller owns that storage."""
     import numpy as np
+    if _PROBING[0]:
+        return          # the harness itself is writing into returned arrays (ownership probe): not the library's doing
     prev = memo.get('last')
     if prev is not None:
         arrs, copies = prev
@@ -176,7 +178,7 @@ def guarded(ctx, monitor_name, fn, *args, **kwargs):
     innermost package function and the exception type, never the input.
     """
     try:
-        return True, fn(*args, **kwargs)
+        res = fn(*args, **kwargs)
     except HarnessError:
         raise
     except LoopBoundExceeded as e:
@@ -188,3 +190,64 @@ def guarded(ctx, monitor_name, fn, *args, **kwargs):
         ctx.violation(monitor_name, f'raise:{site}:{type(e).__name__}',
                       f'{type(e).__name__}: {e} (at {where})', call=monitor_name)
         return False, None
+    _OWN[0] += 1
+    if _OWN[0] % 5 == 0:
+        _ownership_probe(ctx, monitor_name, fn, args, kwargs, res)
+    return True, res
+
+
+_OWN = [0]
+_PROBING = [False]
+
+
+def _ownership_probe(ctx, label, fn, args, kwargs, res):
+    """An array handed to the caller belongs to the caller: after the harness has written into the returned arrays, the
+    same call must still return what it returned the first time (a memo / scratch buffer handed out without a copy is
+    silently edited by the caller's own, perfectly legal, in-place arithmetic on its result).  Every fifth harness-level
+    call; the returned arrays are restored afterwards."""
+    import numpy as np
+    arrs = [a for a in _arrays(res, []) if 0 < a.size <= 4096 and a.flags.writeable and a.dtype.kind in 'iufb']
+    if not arrs:
+        return
+    ins = _arrays(list(args) + list(kwargs.values()), [])
+    for cell in (getattr(fn, '__closure__', None) or ()):
+        try:
+            v = cell.cell_contents
+        except ValueError:
+            continue
+        if isinstance(v, dict):
+            v = list(v.values())
+        _arrays(v if isinstance(v, (list, tuple, np.ndarray)) else [getattr(v, k) for k in dir(v) if not k.startswith('__')][:40]
+                if hasattr(v, '__dict__') else [], ins)
+    if any(np.may_share_memory(a, b) for a in arrs for b in ins):
+        return                          # views of the caller's own input: the caller owns that storage anyway
+    saved = [a.copy() for a in arrs]
+    for a in arrs:
+        if a.dtype.kind == 'b':
+            np.logical_not(a, out=a)
+        elif a.dtype.kind == 'f':
+            a *= -3.0
+            a += 7.0
+        else:
+            a += 1000003
+    _PROBING[0] = True
+    try:
+        try:
+            res2 = fn(*args, **kwargs)
+        except (HarnessError, LoopBoundExceeded):
+            raise
+        except Exception as e:
+            ctx.violation('result-ownership', f'aliasing:returned-array-shared:{label}',
+                          f'{label}: after the caller wrote into the arrays it had been handed, the same call raised {type(e).__name__}: {e}')
+            return
+        arrs2 = [a for a in _arrays(res2, []) if 0 < a.size <= 4096 and a.dtype.kind in 'iufb']
+        same = len(arrs2) == len(saved) and all(x.shape == y.shape and np.array_equal(x, y, equal_nan=(y.dtype.kind == 'f'))
+                                                for x, y in zip(arrs2, saved))
+        ctx.check(same, 'result-ownership', f'aliasing:returned-array-shared:{label}',
+                  f'{label}: after the caller wrote into the arrays it had been handed, the same call returns different values '
+                  f'(the returned array is shared with internal state)',
+                  first=saved[0][:20], again=(arrs2[0][:20] if arrs2 else None))
+    finally:
+        _PROBING[0] = False
+        for a, c in zip(arrs, saved):
+            a[...] = c
